@@ -54,6 +54,9 @@ func convertScenarioToAmmo(sc config.ScenarioConfig, reqs map[string]config.Call
 			return nil, fmt.Errorf("failed to parse shoot %s: %w", sh, err)
 		}
 		if name == "sleep" {
+			if len(result.Calls) == 0 {
+				return nil, fmt.Errorf("sleep() must follow a request, but it is the first step of the scenario")
+			}
 			result.Calls[len(result.Calls)-1].Sleep += time.Millisecond * time.Duration(cnt)
 			continue
 		}
